@@ -164,7 +164,8 @@ def gen_c17(rng, oracle, index, tier="quick"):
             if dt.startswith("float"):
                 rows.append([rng.choice([0, 1, -1, 0.5, 1.5, -2.5])] + [rng.choice([0, 1, -1, 0.5, -0.5, 2]) for _ in ids])
             else:
-                rows.append([rng.randint(-3, 3)] + [rng.choice([0, 1, -1, 2, -2]) for _ in ids])
+                big = [2 ** 31, -(2 ** 31), 2 ** 31 - 1, 2 ** 15, 128, -129] if dt == "int64" and rng.random() < 0.3 else []
+                rows.append([rng.randint(-3, 3)] + [rng.choice([0, 1, -1, 2, -2] + big) for _ in ids])
         vs = [[0, 1, 1]] + [[i, g.leafb[i][0], g.leafb[i][1]] for i in ids]
         dpv = None if rng.random() < 0.3 else [rng.choice([-1, -1, -2, -3]) for _ in ids]
         ph = g.fresh("p")
